@@ -364,7 +364,7 @@ class St:
 class TlWorld(HistoryWorld):
     name = 'TL'
     chunk = 4
-    legs = {'quick': [('frames', 4200), ('blockid', 1200)], 'thorough': [('frames', 400000), ('blockid', 40000)]}
+    legs = {'quick': [('frames', 3200), ('blockid', 1200)], 'thorough': [('frames', 400000), ('blockid', 40000)]}
     budget = {'quick': 110, 'thorough': 1500}
     real_code = ['pytoniq_core.tl.generator (TlGenerator.generate/from_file, TlRegistrator.register/get_id, split, TlSchemas.serialize/serialize_field/deserialize)',
                  'pytoniq_core.tl.block (BlockId, BlockIdExt)']
